@@ -58,21 +58,76 @@ def _disjuncts(c):
     return [c]
 
 
-def _compares_field(d, f):
-    """disjunct d is `self.f != other.f` or `|self.f - other.f| / self.f >= eps`-like (true when they differ)"""
+def _compares_field(d, f, other="other", neg=False):
+    """disjunct d is `self.f != other.f` or `|self.f - other.f| / self.f >= eps`-like (true when they differ); with neg the
+    node is a conjunct of an acceptance test and its negation is the disjunct"""
     d = nf.strip(d)
     if d["k"] != "Binary":
         return False
-    s = nf.nf(d)
-    a, b = "self.%s" % f, "other.%s" % f
-    if d["op"] == "!=":
+    a, b = "self.%s" % f, "%s.%s" % (other, f)
+    op = d["op"]
+    if neg:
+        op = {"==": "!=", "<": ">=", "<=": ">", ">": "<=", ">=": "<"}.get(op)
+    if op == "!=":
         return {nf.nf(d["l"]), nf.nf(d["r"])} == {a, b}
-    if d["op"] in (">=", ">"):
+    if op in (">=", ">"):
         l = nf.nf(d["l"])
         return a in l and b in l and ".abs()" in l and a not in nf.nf(d["r"]) and b not in nf.nf(d["r"])
-    if d["op"] in ("<=", "<"):
+    if op in ("<=", "<"):
         r = nf.nf(d["r"])
-        return a in r and b in r and ".abs()" in r
+        return a in r and b in r and ".abs()" in r and a not in nf.nf(d["l"]) and b not in nf.nf(d["l"])
+    return False
+
+
+def _conjuncts(c):
+    c = nf.strip(c)
+    if c["k"] == "Binary" and c["op"] == "&&":
+        return _conjuncts(c["l"]) + _conjuncts(c["r"])
+    return [c]
+
+
+def _helper_tests(facts, c):
+    """`!self.h(other)` where h is an effect-free in-crate predicate of the form `if C1 {return false} .. true` or a tail
+    conjunction: the comparisons whose failure makes h false, as [(node, other-name, negated)]; None if c is not of that form"""
+    c = nf.strip(c)
+    if not (c["k"] == "Unary" and c["op"] == "!"):
+        return None
+    m = nf.strip(c["e"])
+    if m["k"] != "MethodCall" or nf.nf(m["recv"]) != "self" or len(m["args"]) != 1 or nf.nf(m["args"][0]) not in ("other", "&other"):
+        return None
+    h = facts.fns.get(m.get("callee", ""))
+    if h is None or "hir" not in h or len(h["params"]) != 2:
+        return None
+    if writes_to_self(h) or mutating_self_calls(h) or any(x["k"] in ("Assign", "AssignOp") for x in hirq.walk(h["hir"])):
+        return None
+    oname = hirq.show_pat(h["params"][1]["pat"])
+    body = h["hir"]
+    tests = []
+    for st in body["stmts"]:
+        if hirq.in_log_macro(st):
+            continue
+        if st["k"] != "If" or "e" in st:
+            return None
+        t = st["t"]
+        last = (t["stmts"][-1] if t["stmts"] else t.get("expr")) if t["k"] == "Block" else t
+        if last is None or last["k"] != "Ret" or nf.nf(last.get("e")) != "false":
+            return None
+        tests += [(d, oname, False) for d in _disjuncts(st["c"])]
+    tail = body.get("expr")
+    if tail is None:
+        return None
+    if nf.nf(tail) != "true":
+        tests += [(d, oname, True) for d in _conjuncts(tail)]
+    return tests
+
+
+def _guard_compares(facts, r, f):
+    for d in _disjuncts(r["c"]):
+        if _compares_field(d, f):
+            return True
+        ht = _helper_tests(facts, d)
+        if ht and any(_compares_field(n, f, o, neg) for (n, o, neg) in ht):
+            return True
     return False
 
 
@@ -88,7 +143,7 @@ def merge_rules(ctx, facts):
         ctx.violation("MERGE-b", fid, "no effect", hirq.loc(fn), "merge has no effect on self at all")
         return
     for f in fields:
-        guards = [r for r in rej if any(_compares_field(d, f) for d in _disjuncts(r["c"]))]
+        guards = [r for r in rej if _guard_compares(facts, r, f)]
         if not guards:
             ctx.violation("MERGE-a", fid, "parameter %s not compared" % f, hirq.loc(fn),
                           "no rejecting comparison of self.%s with other.%s precedes the merge: sketches with different %s would be merged" % (f, f, f))
